@@ -484,9 +484,22 @@ pub fn seq_request_n(stack: bool, resets: u64, texts: &[String]) -> String {
     s
 }
 
+/// `F19`: the same history, answered per element by `same` (this thread and a fresh thread agree)
+/// or `differs !fresh <fresh observation>`; the model's answer is `same` throughout (theorem
+/// `runSeq_reset_eq_map`), so the size of the sources costs the model nothing.
+pub fn fresh_only(obs: &str) -> String {
+    obs.split(" ## ")
+        .map(|e| match e.split_once(" !fresh ") {
+            Some((_, f)) => format!("differs !fresh {}", &f[..f.len().min(300)].replace(" ## ", " ")),
+            None => "same".to_string(),
+        })
+        .collect::<Vec<_>>()
+        .join(" ## ")
+}
+
 pub fn parse_seq_request(line: &str) -> Option<(bool, bool, Vec<String>)> {
     let f: Vec<&str> = line.split_whitespace().collect();
-    if f.len() < 4 || f[0] != "A19" {
+    if f.len() < 4 || (f[0] != "A19" && f[0] != "F19") {
         return None;
     }
     let mut texts = Vec::new();
@@ -579,7 +592,7 @@ pub fn run_seq(o: &crate::Opts) {
                 Some((stack, reset, texts)) => {
                     let n = if reset { parse_seq_resets(line).max(1) } else { 0 };
                     let obs = observe_seq_n(&mut runner, stack, n, &texts);
-                    sink.put(line, &obs);
+                    sink.put(line, &if line.starts_with("F19") { fresh_only(&obs) } else { obs });
                 }
                 None => sink.put(line, "bad-request"),
             }
@@ -631,6 +644,30 @@ pub fn run_seq(o: &crate::Opts) {
             ] };
             let obs = observe_seq(&mut runner, false, reset, &texts);
             sink.put(&seq_request(false, reset, &texts), &obs);
+        }
+    }
+    // the same with tables of 20,000 … 65,000 labels, on the implementation alone (`F19`): this
+    // thread against a fresh thread, element by element
+    if o.shard == 4 % o.nshards {
+        for (nlabels, resets) in [(20_000usize, 1u64), (28_672, 1), (28_673, 1), (30_000, 1), (40_000, 2), (57_344, 1), (57_345, 1), (65_000, 1)] {
+            let mut big = String::from(".orig x0\n");
+            for k in 0..nlabels {
+                big.push_str(&format!("tbl{} add r0 r0 #0\n", k));
+            }
+            big.push_str("halt\n");
+            let texts: Vec<String> = vec![
+                big.clone(),
+                "keep halt\nmore halt\n".into(),
+                "lea r0 keep\nmore halt\n".into(),
+                "br tbl7\n".into(),
+                "tbl100 halt\nld r0 tbl100\n".into(),
+                big,
+                "lea r1 tbl0\n".into(),
+            ];
+            let obs = observe_seq_n(&mut runner, false, resets, &texts);
+            fresh_diffs += obs.matches(" !fresh ").count() as u64;
+            let rq = seq_request_n(false, resets, &texts).replacen("A19", "F19", 1);
+            sink.put(&rq, &fresh_only(&obs));
         }
     }
     for idx in 0..total {
